@@ -302,4 +302,85 @@ theorem a64_bracket (Q : Nat) (hQ : Q % 16 = 0) (items : List (PSlot × Bool)) :
         rw [hkeys, List.mem_append] at hgr
         rw [pl2 g r (fun h => hgr (Or.inl h)), t3'out g r (fun h => hgr (Or.inr h))]
 
+/-! ### the pair that carries the `sp` adjustment (pre / post index) and the `sub/add` of the frame -/
+
+def stPre (total : Nat) (p : PSlot) : Instr := Instr.stp p.1 p.2.1 p.2.2.1 p.2.2.2.1 31 (-(toI32 total)) .pre
+def ldPost (total : Nat) (p : PSlot) : Instr := Instr.ldp p.1 p.2.1 p.2.2.1 p.2.2.2.1 31 (toI32 total) .post
+
+theorem step_stPre (total : Nat) (p : PSlot) (s : St) (hr : s.ret = none) (hal : s.gp 31 % 16 = 0)
+    (ht : total < 2 ^ 31) (hroom : total ≤ s.gp 31) :
+    step .a64 (stPre total p) s = some (({ s with mem := pStore s p (s.gp 31 - total) }).setGp 31 (s.gp 31 - total)) := by
+  obtain ⟨g, sz, r1, r2, off⟩ := p
+  simp only [stPre, step, isSome_false_of_none hr, Bool.false_eq_true, if_false, spAccessOk_a64 s hal, Bool.not_true,
+    toI32_small total ht, addrOf_neg _ _ hroom, Option.bind_some]
+  cases r2 <;> simp [pStore]
+
+theorem step_ldPost (total : Nat) (p : PSlot) (s : St) (hr : s.ret = none) (hal : s.gp 31 % 16 = 0) (ht : total < 2 ^ 31) :
+    step .a64 (ldPost total p) s = some (pLoad (s.setGp 31 (s.gp 31 + total)) s.mem p (s.gp 31)) := by
+  obtain ⟨g, sz, r1, r2, off⟩ := p
+  simp only [ldPost, step, isSome_false_of_none hr, Bool.false_eq_true, if_false, spAccessOk_a64 s hal, Bool.not_true,
+    toI32_small total ht, addrOf_nat, Option.bind_some]
+  cases r2 <;> simp [pLoad]
+
+theorem adj_split (adj : Nat) (h : adj ≤ 0xFFFFFF) : (adj &&& 0xFFF) + (adj &&& 0xFFF000) = adj := by
+  have h1 : adj &&& 0xFFF = adj % 2 ^ 12 := Nat.and_two_pow_sub_one_eq_mod adj 12
+  have h2 : adj &&& 0xFFF000 = adj - adj % 2 ^ 12 := and_neg_pow2_n 24 adj 12 (by omega) (by omega)
+  rw [h1, h2]
+  have := Nat.mod_le adj (2 ^ 12)
+  omega
+
+/-- `sub sp, sp, #adj` in one or two instructions -/
+theorem run_a64_sub (adj : Nat) (s : St) (hr : s.ret = none) (hroom : adj ≤ s.gp 31) (l : List Instr)
+    (h : a64Adjust adj (Instr.sub 31) = some l) :
+    ∃ t, run .a64 l s = some t ∧ t.gp 31 = s.gp 31 - adj ∧ (∀ r, r ≠ 31 → t.gp r = s.gp r) ∧ t.x = s.x ∧ t.mem = s.mem
+      ∧ t.ret = none := by
+  unfold a64Adjust at h
+  split at h
+  · rename_i h0
+    injection h with h; subst h
+    exact ⟨s, rfl, by omega, fun _ _ => rfl, rfl, rfl, hr⟩
+  · split at h
+    · injection h with h; subst h
+      refine ⟨_, run_one _ _ _ _ (step_sub _ 31 adj s hr hroom), by simp, fun r hr' => by simp [hr'], rfl, rfl, hr⟩
+    · split at h
+      · rename_i _ _ hle
+        injection h with h; subst h
+        have hs := adj_split adj hle
+        have h1 := step_sub .a64 31 (adj &&& 0xFFF) s hr (by omega)
+        have h2 := step_sub .a64 31 (adj &&& 0xFFF000) (s.setGp 31 (s.gp 31 - (adj &&& 0xFFF))) hr (by simp; omega)
+        refine ⟨(s.setGp 31 (s.gp 31 - (adj &&& 0xFFF))).setGp 31
+          ((s.setGp 31 (s.gp 31 - (adj &&& 0xFFF))).gp 31 - (adj &&& 0xFFF000)), ?_, ?_,
+          fun r hr' => by simp [hr'], rfl, rfl, hr⟩
+        · show (step .a64 _ s).bind (fun s' => (step .a64 _ s').bind (run .a64 [])) = _
+          rw [h1]; simp only [Option.bind_some]; rw [h2]; rfl
+        · simp only [setGp_gp, if_true]; omega
+      · exact absurd h (by simp)
+
+/-- `add sp, sp, #adj` in one or two instructions -/
+theorem run_a64_add (adj : Nat) (s : St) (hr : s.ret = none) (l : List Instr)
+    (h : a64Adjust adj (Instr.add 31) = some l) :
+    ∃ t, run .a64 l s = some t ∧ t.gp 31 = s.gp 31 + adj ∧ (∀ r, r ≠ 31 → t.gp r = s.gp r) ∧ t.x = s.x ∧ t.mem = s.mem
+      ∧ t.ret = none := by
+  unfold a64Adjust at h
+  split at h
+  · rename_i h0
+    injection h with h; subst h
+    exact ⟨s, rfl, by omega, fun _ _ => rfl, rfl, rfl, hr⟩
+  · split at h
+    · injection h with h; subst h
+      refine ⟨_, run_one _ _ _ _ (step_add _ 31 adj s hr), by simp, fun r hr' => by simp [hr'], rfl, rfl, hr⟩
+    · split at h
+      · rename_i _ _ hle
+        injection h with h; subst h
+        have hs := adj_split adj hle
+        have h1 := step_add .a64 31 (adj &&& 0xFFF) s hr
+        have h2 := step_add .a64 31 (adj &&& 0xFFF000) (s.setGp 31 (s.gp 31 + (adj &&& 0xFFF))) hr
+        refine ⟨(s.setGp 31 (s.gp 31 + (adj &&& 0xFFF))).setGp 31
+          ((s.setGp 31 (s.gp 31 + (adj &&& 0xFFF))).gp 31 + (adj &&& 0xFFF000)), ?_, ?_,
+          fun r hr' => by simp [hr'], rfl, rfl, hr⟩
+        · show (step .a64 _ s).bind (fun s' => (step .a64 _ s').bind (run .a64 [])) = _
+          rw [h1]; simp only [Option.bind_some]; rw [h2]; rfl
+        · simp only [setGp_gp, if_true]; omega
+      · exact absurd h (by simp)
+
 end AsmjitVerif.Frame
